@@ -108,6 +108,7 @@ type World struct {
 	//   "mark-redundant"    no redundant marks
 	//   "reopen"            no close/open
 	//   "ts-nonphysical"    no tombstone whose target is absent, non-physical or a parent
+	//   "ts-on-redundant"   no tombstone that removes a stored object carrying a redundant mark
 	//   "ts-link"           no tombstone that removes a stored non-REGULAR object with payload (link)
 	Avoid map[string]bool
 	// Excluded counts, per Avoid class, the actions redirected or dropped.
@@ -280,11 +281,12 @@ func (w *World) allPhysical(a mm.Addr) bool {
 // avoidPut returns the Avoid class that forbids putting s now ("" if none).
 func (w *World) avoidPut(a mm.Addr, s uni.Spec) string {
 	if w.Avoid["reput-over-mark"] {
-		if w.M.Mark(a) == mm.MarkDefault && w.M.Stored(a) {
+		// a stored object hidden by a (possibly inherited) default garbage mark is indexed again
+		if w.M.Stored(a) && w.M.Primary(a, w.Epoch) == mm.Garbage {
 			return "reput-over-mark"
 		}
 		if ph, ok := mm.ParentHeader(s); ok {
-			if pa := (mm.Addr{C: a.C, I: ph.ID}); w.M.Mark(pa) == mm.MarkDefault && w.M.Stored(pa) {
+			if pa := (mm.Addr{C: a.C, I: ph.ID}); w.M.Stored(pa) && w.M.Primary(pa, w.Epoch) == mm.Garbage {
 				return "reput-over-mark"
 			}
 		}
@@ -298,6 +300,14 @@ func (w *World) avoidPut(a mm.Addr, s uni.Spec) string {
 			for _, k := range append(w.M.Children(ta), ta.I) {
 				if o := w.M.Get(mm.Addr{C: a.C, I: k}); o != nil && o.Type != mm.TRegular && o.Size > 0 {
 					return "ts-link"
+				}
+			}
+		}
+		if w.Avoid["ts-on-redundant"] {
+			for _, k := range append(w.M.Children(ta), ta.I) {
+				x := mm.Addr{C: a.C, I: k}
+				if w.M.Stored(x) && w.M.Mark(x) == mm.MarkRedundant {
+					return "ts-on-redundant"
 				}
 			}
 		}
